@@ -2,8 +2,14 @@
    byte-string map [run_bmap] (the specification the theorem C02_refines is about), and compares
    both, token by token, with what the Go trie returned.
      prop_ok  = the Go observables equal those of the ordered map
-     model_eq = the Go observables equal those of the model of the (repaired) code
-   The tag "pinned-eq" records that the observables also equal the model of the pinned tree. *)
+     model_eq = the Go observables equal those of the model of the (repaired) code, and every
+                Descendants counter of the Go trie is exact at the end of the case (token T:ok;
+                the model's changed-flag in clearPrefixAtNode is faithful only then)
+   Tags: op kinds; "pinned-eq"/"pinned-differs" (model of the pinned tree); one tag per model branch an
+   operation ends in (G:/D:/C:/L:/N:/K:/P: ..., computed by walking the model trie before the
+   operation); "guard-hit-<slug>" / "guard-agree-<slug>" = an operation lies inside a known-finding
+   guard and the Go answer differs from / equals the map's (exactness of the guards, measured);
+   "gomap-eq" = the answers equal the ordered map with the Go matching rule (C02_refines_go). *)
 open Model
 open Vutil
 
@@ -56,28 +62,256 @@ let first_diff a b =
 
 let nth_or l i = try List.nth l i with _ -> "<missing>"
 
+(* ---------------- model-branch coverage (tags only) ---------------- *)
+let nibs (b : byte list) : int list =
+  List.concat_map (fun x -> let v = int_of_byte x in [v / 16; v mod 16]) b
+let ikey (k : key) = List.map int_of_nat k
+let rec is_pre p k = match p, k with
+  | [], _ -> true | x :: p', y :: k' -> x = y && is_pre p' k' | _ :: _, [] -> false
+let rec cplen a b = match a, b with x :: a', y :: b' when x = y -> 1 + cplen a' b' | _ -> 0
+let rec drop n l = if n <= 0 then l else match l with [] -> [] | _ :: r -> drop (n - 1) r
+let child cs i = match List.nth_opt cs i with Some c -> c | None -> None
+let nth0 l i = match List.nth_opt l i with Some x -> x | None -> 0
+let nchildren cs = List.length (List.filter (fun c -> c <> None) cs)
+let rec trim_zero = function [] -> [] | [0] -> [] | x :: r -> x :: trim_zero r
+let pk_of = function Leaf (pk, _) -> ikey pk | Branch (pk, _, _) -> ikey pk
+(* what handleDeletion does with a branch that has [n] children left and value [ov] *)
+let hd_tag cs ov = match nchildren cs, ov with
+  | 0, Some _ -> "hd-to-leaf"
+  | 1, None -> (match List.find (fun c -> c <> None) cs with
+      | Some (Leaf _) -> "hd-merge-leaf" | Some (Branch _) -> "hd-merge-branch" | None -> "hd-keep")
+  | 0, None -> "hd-empty"
+  | _ -> "hd-keep"
+let set_nth cs i c = List.mapi (fun j x -> if j = i then c else x) cs
+let dpt d = if d = 0 then "0" else "1"   (* at the root / below it *)
+
+let rec cov_get d t k acc = match t with
+  | Leaf (pk, _) -> ("G" ^ dpt d ^ (if ikey pk = k then ":leaf-hit" else ":leaf-miss")) :: acc
+  | Branch (pk, ov, cs) ->
+    let pk = ikey pk in
+    if k = [] then ("G" ^ dpt d ^ ":empty-key" ^ (if pk = [] then "" else "-pk") ^ (if ov = None then "-noval" else "-val")) :: acc
+    else if pk = k then ("G" ^ dpt d ^ (if ov = None then ":branch-self-noval" else ":branch-self-val")) :: acc
+    else if not (is_pre pk k) then ("G" ^ dpt d ^ ":diverge") :: acc
+    else
+      let n = List.length pk in
+      let ck = drop (n + 1) k in
+      (match child cs (nth0 k n) with
+       | None -> ("G" ^ dpt d ^ ":child-nil") :: acc
+       | Some c -> if ck = [] && pk_of c <> [] then ("G" ^ dpt d ^ ":slot-end") :: acc else cov_get (d + 1) c ck acc)
+
+let rec cov_del d t k acc = match t with
+  | Leaf (pk, _) ->
+    ("D" ^ dpt d ^ (if k = [] then (if pk = [] then ":leaf-del" else ":leaf-empty-key") else if ikey pk = k then ":leaf-del" else ":leaf-miss")) :: acc
+  | Branch (pk, ov, cs) ->
+    let pk = ikey pk in
+    if k = [] || pk = k then
+      ("D" ^ dpt d ^ ":branch-value-" ^ (if ov = None then "absent-" else "") ^ hd_tag cs None) :: acc
+    else
+      let n = cplen pk k in
+      if n < List.length pk then ("D" ^ dpt d ^ ":diverge") :: acc
+      else
+        let ck = drop (n + 1) k and i = nth0 k n in
+        (match child cs i with
+         | None -> ("D" ^ dpt d ^ ":child-nil") :: acc
+         | Some c ->
+           if ck = [] && pk_of c <> [] then ("D" ^ dpt d ^ ":slot-end") :: acc
+           else begin
+             let acc = (match c with
+               | Leaf (cpk, _) when ikey cpk = ck || ck = [] -> ("D" ^ dpt d ^ ":parent-" ^ hd_tag (set_nth cs i None) ov) :: acc
+               | _ -> acc) in
+             cov_del (d + 1) c ck acc
+           end)
+
+let rec cov_clear d t p acc = match t with
+  | Leaf (pk, _) -> ("C" ^ dpt d ^ (if is_pre p (ikey pk) then ":leaf-cleared" else ":leaf-keep")) :: acc
+  | Branch (pk, ov, cs) ->
+    let pk = ikey pk in
+    let n = List.length pk in
+    if is_pre p pk then ("C" ^ dpt d ^ ":branch-cleared") :: acc
+    else if List.length p = n + 1 && is_pre pk p then
+      (match child cs (nth0 p n) with
+       | None -> ("C" ^ dpt d ^ ":slot-nil") :: acc
+       | Some _ -> ("C" ^ dpt d ^ ":slot-" ^ hd_tag (set_nth cs (nth0 p n) None) ov) :: acc)
+    else if List.length p <= n || cplen pk p < n then ("C" ^ dpt d ^ ":no-prefix") :: acc
+    else
+      (match child cs (nth0 p n) with
+       | None -> ("C" ^ dpt d ^ ":rec-nil") :: acc
+       | Some c ->
+         let cp = drop (n + 1) p in
+         let acc = (if is_pre cp (pk_of c) then ("C" ^ dpt d ^ ":rec-child-cleared-" ^ hd_tag (set_nth cs (nth0 p n) None) ov) :: acc else acc) in
+         cov_clear (d + 1) c cp acc)
+
+let dnl_tag t limit =
+  match delete_nodes_limit t limit with
+  | (None, _) -> "dnl-all"
+  | (Some (Leaf _), _) -> "dnl-partial-to-leaf"
+  | (Some (Branch (_, ov, _)), _) -> if ov = None then "dnl-partial-branch" else "dnl-partial-branch-val"
+
+let rec cov_limit d t p limit acc = match t with
+  | Leaf (pk, _) -> ("L" ^ dpt d ^ (if is_pre p (ikey pk) then ":leaf-hit" else ":leaf-miss")) :: acc
+  | Branch (pk, _, cs) ->
+    let pk = ikey pk in
+    let n = List.length pk in
+    if is_pre p pk then ("L" ^ dpt d ^ ":" ^ dnl_tag t limit) :: acc
+    else if List.length p = n + 1 && is_pre pk p then
+      (match child cs (nth0 p n) with
+       | None -> ("L" ^ dpt d ^ ":slot-nil") :: acc
+       | Some c -> ("L" ^ dpt d ^ ":slot-" ^ dnl_tag c limit) :: acc)
+    else if List.length p <= n || cplen pk p < n then ("L" ^ dpt d ^ ":no-prefix") :: acc
+    else
+      (match child cs (nth0 p n) with
+       | None -> ("L" ^ dpt d ^ ":rec-nil") :: acc
+       | Some c -> cov_limit (d + 1) c (drop (n + 1) p) limit acc)
+
+let rec cmp_l (a : int list) (b : int list) = match a, b with
+  | [], [] -> 0 | [], _ -> -1 | _, [] -> 1
+  | x :: a', y :: b' -> if x < y then -1 else if x > y then 1 else cmp_l a' b'
+
+let rec cov_next t prefix search acc = match t with
+  | Leaf (pk, _) -> (if cmp_l search (prefix @ ikey pk) < 0 then "N:leaf-lt" else "N:leaf-ge") :: acc
+  | Branch (pk, ov, cs) ->
+    let full = prefix @ ikey pk in
+    let c = cmp_l search full in
+    let visit start acc =
+      let acc = ref acc in
+      List.iteri (fun i oc -> if i >= start then match oc with
+        | Some ch -> acc := cov_next ch (full @ [i]) search !acc | None -> ()) cs;
+      !acc in
+    if c < 0 then (if ov <> None then "N:branch-lt-val" :: acc else visit 0 ("N:branch-lt-noval" :: acc))
+    else if c = 0 then visit 0 ("N:branch-eq" :: acc)
+    else if List.length search <= List.length full then "N:branch-gt-exhausted" :: acc
+    else visit (nth0 search (List.length full)) ("N:branch-gt-descend" :: acc)
+
+let rec cov_keys d t k acc = match t with
+  | Leaf (pk, _) -> ("K" ^ dpt d ^ (if k = [] || is_pre k (ikey pk) then ":leaf-hit" else ":leaf-miss")) :: acc
+  | Branch (pk, _, cs) ->
+    let pk = ikey pk in
+    if k = [] || is_pre k pk then ("K" ^ dpt d ^ ":all-keys") :: acc
+    else if not (is_pre pk k) then ("K" ^ dpt d ^ ":diverge") :: acc
+    else
+      let r = drop (List.length pk) k in
+      (match r with
+       | [] -> ("K" ^ dpt d ^ ":panic") :: acc
+       | ci :: ck -> (match child cs ci with
+           | None -> ("K" ^ dpt d ^ ":child-nil") :: acc
+           | Some c -> cov_keys (d + 1) c ck acc))
+
+let rec cov_put d t k acc = match t with
+  | Leaf (pk, _) ->
+    let pk = ikey pk in
+    let n = cplen k pk in
+    ("P" ^ dpt d ^ (if pk = k then ":leaf-overwrite"
+                    else if List.length k = n then ":leaf-key-inside-leafkey"
+                    else if List.length pk = n then ":leaf-leafkey-inside-key"
+                    else ":leaf-split")) :: acc
+  | Branch (pk, _, cs) ->
+    let pk = ikey pk in
+    if k = pk then ("P" ^ dpt d ^ ":branch-own-value") :: acc
+    else if is_pre pk k then
+      let n = List.length pk in
+      (match child cs (nth0 k n) with
+       | None -> ("P" ^ dpt d ^ ":branch-new-child") :: acc
+       | Some c -> cov_put (d + 1) c (drop (n + 1) k) acc)
+    else ("P" ^ dpt d ^ (if List.length k <= cplen k pk then ":branch-split-key-inside" else ":branch-split")) :: acc
+
+let cover (t : trie) (o : op) acc =
+  match t with
+  | None -> (match o with
+      | OpPut _ -> "P0:empty" :: acc | OpDel _ -> "D0:empty" :: acc | OpClear _ -> "C0:empty" :: acc
+      | OpClearLimit (_, l) -> (if l = N0 then "L0:limit-zero" else "L0:empty") :: acc
+      | OpGet _ -> "G0:empty" :: acc | OpNext _ -> "N:empty" :: acc | OpKeys _ -> "K0:empty" :: acc
+      | OpEntries -> acc)
+  | Some n ->
+    (match o with
+     | OpPut (k, _) -> cov_put 0 n (nibs k) acc
+     | OpDel k -> cov_del 0 n (nibs k) acc
+     | OpClear p -> if p = [] then "C0:empty-prefix" :: acc else cov_clear 0 n (trim_zero (nibs p)) acc
+     | OpClearLimit (p, l) -> if l = N0 then "L0:limit-zero" :: acc else cov_limit 0 n (trim_zero (nibs p)) l acc
+     | OpGet k -> cov_get 0 n (nibs k) acc
+     | OpNext k -> cov_next n [] (nibs k) acc
+     | OpKeys p -> cov_keys 0 n (if p = [] then [] else trim_zero (nibs p)) acc
+     | OpEntries -> acc)
+
+(* guard_of on a limited clear with the limit clamped to (stored keys + 1): the same guard
+   (theorem C02_guard_clamp); N.to_nat of a limit like 0xffffffff is not computable in unary *)
+let guard_clamped (m : bmap) (t : trie) (o : op) =
+  match o with
+  | OpClearLimit (p, l) ->
+    let c = n_of_int (List.length m + 1) in
+    let big = String.length (hex_of_n l) > 7 in
+    let l' = if big || int_of_n l > List.length m + 1 then c else l in
+    guard_of m t (OpClearLimit (p, l'))
+  | _ -> guard_of m t o
+
+let slug_of = function
+  | 1 -> "get-exhausted-key" | 2 -> "delete-exhausted-key" | 3 -> "prefix-trim"
+  | 4 -> "clear-limit-zero" | 5 -> "clear-limit-order" | _ -> "-"
+
+(* the trailing Descendants token *)
+let split_desc got =
+  match List.rev got with
+  | last :: rest when String.length last >= 2 && String.sub last 0 2 = "T:" -> (List.rev rest, Some last)
+  | _ -> (got, None)
+
 let check inp obs =
   match split_ws inp with
   | "seq" :: _ver :: opstrs ->
     let ops = List.map parse_op opstrs in
-    let got = if obs = "()" then [] else split_ws obs in
-    let spec = List.map (str_out false) (run_bmap [] ops) in
+    let got0 = if obs = "()" then [] else split_ws obs in
+    let (got, desc) = split_desc got0 in
+    let panicked = List.mem "panic" got in
     let pin = List.map (str_out true) (run_trie pinned None ops) in
     let model = List.map (str_out true) (run_trie repaired None ops) in
-    let prop_d = first_diff got spec in
+    let gomap = List.map (str_out false) (run_gomap [] ops) in
     let model_d = first_diff got model in
     let pin_d = first_diff got pin in
-    let slug = (match prop_d with
-      | Some i when i < List.length ops ->
-        let m = bmap_before [] ops (nat_of_int i) and t = trie_before repaired None ops (nat_of_int i) in
-        (match int_of_nat (guard_of m t (List.nth ops i)) with
-         | 1 -> "get-exhausted-key" | 2 -> "delete-exhausted-key" | 3 -> "prefix-trim"
-         | 4 -> "clear-limit-zero" | 5 -> "clear-limit-order" | _ -> "-")
-      | _ -> "-") in
+    let desc_ok = (match desc with Some "T:ok" -> true | Some _ -> false | None -> panicked) in
+    (* Step by step along the model's states: the map's answer to each operation, per-operation
+       coverage, guard exactness.  When the Go answer differs from the map's INSIDE a known-finding guard
+       the map is re-synchronised with the state of the model after the operation (a canonical trie again,
+       so C02_step applies from there) and the rest of the case is still checked against the map; a
+       difference outside every guard is a property failure wherever it occurs. *)
+    let cov = ref [] and gtags = ref [] in
+    let m = ref [] and t = ref None in
+    let spec = ref [] and fails = ref [] in
+    let bmap_of_trie (tr : trie) : bmap =
+      List.filter_map (fun (k, v) -> match v with Some x -> Some (k, x) | None -> None) (repaired.i_entries tr) in
+    let stopped = ref false in
+    List.iteri (fun i o ->
+      if not !stopped then begin
+        cov := cover !t o !cov;
+        let g = int_of_nat (guard_clamped !m !t o) in
+        let (m', so) = bm_step !m o in
+        let (t', mo) = trie_step repaired !t o in
+        let stok = str_out false so in
+        spec := stok :: !spec;
+        let gtok = nth_or got i in
+        let differs = (gtok <> stok) in
+        if g <> 0 then gtags := ((if differs then "guard-hit-" else "guard-agree-") ^ slug_of g) :: !gtags;
+        if differs then fails := (i, g) :: !fails;
+        if is_panic mo || gtok = "panic" || gtok = "<missing>" then stopped := true;
+        t := t';
+        m := (if differs && g <> 0 && gtok = str_out true mo then bmap_of_trie t' else m')
+      end) ops;
+    let spec = List.rev !spec and fails = List.rev !fails in
+    let unguarded = List.filter (fun (_, g) -> g = 0) fails in
+    let prop_d = (match unguarded, fails with
+      | (i, _) :: _, _ -> Some i
+      | [], (i, _) :: _ -> Some i
+      | [], [] -> if List.length got <> List.length spec && not panicked then Some (min (List.length got) (List.length spec)) else None) in
+    let slug = (match unguarded, fails with
+      | _ :: _, _ -> "-"
+      | [], (_, g) :: _ -> slug_of g
+      | [], [] -> "-") in
     let kinds = List.sort_uniq compare (List.map op_kind opstrs) in
     let tags = List.map (fun k -> "op-" ^ k) kinds
                @ (if pin_d = None then ["pinned-eq"] else ["pinned-differs"])
-               @ (match prop_d with Some i -> ["propfail-" ^ op_kind (nth_or opstrs i) ^ "-" ^ slug] | None -> []) in
+               @ (if first_diff got gomap = None then ["gomap-eq"] else ["gomap-differs"])
+               @ (match desc with Some "T:ok" -> ["desc-ok"] | Some _ -> ["desc-bad"] | None -> ["desc-none"])
+               @ List.sort_uniq compare (List.map (fun (i, g) -> "propfail-" ^ op_kind (nth_or opstrs i) ^ "-" ^ slug_of g) fails)
+               @ (if List.length fails > 1 then ["resynced-after-finding"] else [])
+               @ List.sort_uniq compare !gtags
+               @ List.sort_uniq compare !cov in
     let nontrivial = List.length ops >= 3 && List.exists (fun s -> s <> "()" && s <> "none" && s <> "0/1/()" && s <> "0/0/()") spec in
     let detail =
       (match prop_d with
@@ -85,9 +319,59 @@ let check inp obs =
        | None -> "")
       ^ (match model_d with
          | Some i -> Printf.sprintf "op#%d %s: go=%s model=%s" i (nth_or opstrs i) (nth_or got i) (nth_or model i)
-         | None -> "") in
-    { prop_ok = (prop_d = None); model_eq = (model_d = None); nontrivial; finding = slug;
+         | None -> "")
+      ^ (if desc_ok then "" else Printf.sprintf " descendants-counters=%s" (match desc with Some d -> d | None -> "missing")) in
+    { prop_ok = (prop_d = None); model_eq = (model_d = None) && desc_ok; nontrivial; finding = slug;
       tags = String.concat "," tags; detail }
   | _ -> fail "C02: bad input %s" inp
 
-let () = run_driver check
+(* ---------------- vm_compute cross-check of the extraction ---------------- *)
+let coq_opt f = function None -> "None" | Some x -> "(Some " ^ f x ^ ")"
+let coq_list f l = "[" ^ String.concat "; " (List.map f l) ^ "]"
+let coq_op = function
+  | OpPut (k, v) -> Printf.sprintf "OpPut %s %s" (coq_bytes k) (coq_bytes v)
+  | OpDel k -> "OpDel " ^ coq_bytes k
+  | OpClear p -> "OpClear " ^ coq_bytes p
+  | OpClearLimit (p, l) -> Printf.sprintf "OpClearLimit %s %s" (coq_bytes p) (coq_n l)
+  | OpGet k -> "OpGet " ^ coq_bytes k
+  | OpNext k -> "OpNext " ^ coq_bytes k
+  | OpKeys p -> "OpKeys " ^ coq_bytes p
+  | OpEntries -> "OpEntries"
+let parse_listing s : (byte list * byte list option) list =
+  if s = "()" then [] else
+  List.map (fun kv -> match String.split_on_char '=' kv with
+    | [k; v] -> (bytes_of_hex k, (if v = "nil" then None else Some (bytes_of_hex v)))
+    | _ -> raise Exit) (String.split_on_char ',' s)
+let coq_listing l = coq_list (fun (k, v) -> Printf.sprintf "(%s, %s)" (coq_bytes k) (coq_opt coq_bytes v)) l
+let coq_out kind tok =
+  if tok = "panic" then "OutPanic" else
+  if tok = "err" || tok = "badop" then raise Exit else
+  match kind with
+  | "P" | "D" | "C" | "E" -> "OutEntries " ^ coq_listing (parse_listing tok)
+  | "L" -> (match String.split_on_char '/' tok with
+      | [d; a; e] -> Printf.sprintf "OutLimit %s %s %s" (coq_n (n_of_hex d)) (if a = "1" then "true" else "false")
+                       (coq_listing (parse_listing e))
+      | _ -> raise Exit)
+  | "G" -> "OutGet " ^ (if tok = "none" then "None" else "(Some " ^ coq_bytes (bytes_of_hex tok) ^ ")")
+  | "N" -> "OutNext " ^ (if tok = "none" then "None" else "(Some " ^ coq_bytes (bytes_of_hex tok) ^ ")")
+  | "K" -> "OutKeys " ^ (if tok = "()" then "[]" else coq_list (fun k -> coq_bytes (bytes_of_hex k)) (String.split_on_char ',' tok))
+  | _ -> raise Exit
+
+let coq inp obs =
+  match split_ws inp with
+  | "seq" :: _ :: opstrs when List.length opstrs <= 40 ->
+    (try
+      let ops = List.map parse_op opstrs in
+      let (got, _) = split_desc (split_ws obs) in
+      let kinds = List.map op_kind opstrs in
+      let rec zip ks ts = match ks, ts with k :: ks', t :: ts' -> coq_out k t :: zip ks' ts' | _, [] -> [] | [], _ -> raise Exit in
+      let expected = "[" ^ String.concat "; " (zip kinds got) ^ "]" in
+      let opsS = "[" ^ String.concat "; " (List.map coq_op ops) ^ "]" in
+      let v = check inp obs in
+      let md = (first_diff got (List.map (str_out true) (run_trie repaired None ops)) = None) in
+      Some (Printf.sprintf "let ops := %s in let ex := %s in Bool.eqb (vm_case ops ex) %s && Bool.eqb (vm_case_spec ops ex) %s"
+              opsS expected (if md then "true" else "false") (if v.prop_ok then "true" else "false"))
+    with Exit -> None)
+  | _ -> None
+
+let () = run_driver ~coq check
